@@ -378,7 +378,7 @@ func raceChild(bin string, p fsprog.Program, rounds int) (msg, inconcl string) {
 		return "", "scratch: " + err.Error()
 	}
 	defer os.Remove(f)
-	res, err := inject.RunPlainEnv([]string{bin, "conc", f, fmt.Sprint(rounds)}, []string{"GORACE=halt_on_error=1 exitcode=66"}, 120*time.Second)
+	res, err := inject.RunPlainEnv([]string{bin, "conc", f, fmt.Sprint(rounds)}, []string{"GORACE=halt_on_error=1 exitcode=66 atexit_sleep_ms=0"}, 120*time.Second)
 	if err != nil || res.TimedOut {
 		return "", "race child failed to run or timed out"
 	}
